@@ -1,5 +1,5 @@
 # C14 - template substitution replaces exactly the placeholders and nothing else (Tier A: in-process).
-# Bounded exhaustive: every template made of <= 3 (quick) / <= 4 (thorough) fragments of a 32-fragment alphabet
+# Bounded exhaustive: every template made of <= 3 (quick) / <= 4 (thorough) fragments of a 36-fragment alphabet
 # (de-duplicated on the resulting text) x 100 data sets (A, B each bound to one of 10 values) x formats
 # {meson, cmake, cmake@}, the real do_conf_str executed on every element.  Four oracles:
 #  (1) marker differential (meson format): the output for real values must equal the output obtained with inert
@@ -20,6 +20,9 @@
 # Nesting is not described in Meson's own documentation; it is the documented behaviour of the format's home (cmake-language(7):
 # "Variable references can nest and are evaluated from the inside out", configure_file(): @VAR@ and ${VAR} are both references),
 # the reference implements that rule and - where a cmake(1) is installed - is compared with it line by line.
+# Family "directive spelling" (cmake formats, part of the main alphabet): '# cmakedefine A', '#<tab>cmakedefine01 A', ' #cmakedefine A',
+# ' # cmakedefine A B' and what ' ' makes of the compact directives.  Which white space the output keeps is not specified (CMake keeps it
+# in '#  define VAR' and drops it in '/* #undef VAR */'), so these lines are compared as (define | undef, NAME, VALUE) + line ending.
 import io, itertools, json, os, re, shutil, signal, string, sys, time
 from verif.core import Check, pmap, run_main, scratch_root
 
@@ -40,7 +43,12 @@ FRAGS = ['@A@', '@B@', '@U@', '@', '@@', '\\@', '\\\\', '\\\\\\', '\\@A\\@', '\\
          '#cmakedefine A ${B}',
          # characters str.splitlines() would break a line at, but which are not line endings of a text file: plain text everywhere,
          # also on the line of a define directive
-         '\x0c', '\u2028']
+         '\x0c', '\u2028',
+         # family "directive spelling" (cmake formats): white space between '#' and the keyword and before '#' (indented preprocessor
+         # style).  CMake's configure_file() takes '#' + blanks/tabs + 'cmakedefine[01]' for the directive and keeps the white space;
+         # what Meson keeps of it is not documented, the NAME that is defined / undefined and the VALUE are (see define_triple)
+         '# cmakedefine A', '#\tcmakedefine01 A', ' #cmakedefine A', ' # cmakedefine A B']
+N_SPELLING_FRAGS = 4
 VALUES = ['v', '', '@B@', '\\\\@B@', '${B}', 'x y', 10, 0, True, False]
 DATASETS = [(a, b) for a in VALUES for b in VALUES]
 FORMATS = ['meson', 'cmake', 'cmake@']
@@ -60,8 +68,11 @@ UNSPEC = {
     'cmake:composed-name-invalid': 'a name composed from inner references that comes out empty or with characters that are not name characters '
                                    '(CMake looks any such name up; Meson rejects it with "invalid character")',
     'cmake:value-with-placeholder': 'values containing @ or $ in the cmake formats (the property restricts no-rescan to the meson format)',
-    'cmake:cmakedefine-form': '#cmakedefine other than "#cmakedefine VAR", "#cmakedefine01 VAR", "#cmakedefine VAR <words separated by single blanks>" '
-                              '(indentation, "# cmakedefine", other white space, #cmakedefine01 with words, a define keyword among the words)',
+    'cmake:cmakedefine-form': '#cmakedefine other than [blanks]#[blanks]cmakedefine[01] VAR and [blanks]#[blanks]cmakedefine VAR <words separated by single '
+                              'blanks> (white space other than blanks and tabs around the directive, several blanks between the words, #cmakedefine01 with '
+                              'words, a define keyword among the words, text after the name that is not separated from it)',
+    'cmake:directive-white-space': 'which of the blanks / tabs before "#", between "#" and cmakedefine, around the name and at the end of the line are kept '
+                                   '(CMake keeps them in a define and drops them in an undef comment): such lines are compared as (kind of line, name, value)',
     'cmake:mesondefine-not-at-line-start': 'a mesondefine keyword in a cmake-format template other than the pinned "#mesondefine ..." line (pinned: error)',
     'cmake:false-constant-string': 'strings that CMake treats as false constants (OFF, NO, FALSE, ...)',
     'define:empty-string-trailing-space': '"#define VAR " vs "#define VAR" for an empty string value: both accepted',
@@ -76,6 +87,7 @@ K_SWALLOW = 'C14:cmake:empty-value-swallows-next-placeholder'
 K_ARGMISS = 'C14:cmake:cmakedefine-arg-undefined-not-reported'
 K_HANG = 'C14:cmake:self-referential-value-never-terminates'
 K_BARE = 'C14:cmake:cmakedefine-word-that-is-a-key-replaced'
+K_KWNAME = 'C14:cmake:indented-hash-space-cmakedefine'     # '# cmakedefine VAR': the keyword is taken for the name of the variable
 HANG_S = 3                 # watchdog per real call (a call takes ~10 us)
 HANG_CLASS_LIVE = False    # decided by probes in the parent: skip the (unspecified) self-referential class if it hangs
 
@@ -265,11 +277,38 @@ def scan_cmake(body, at_only):
 
 _IDENT = re.compile(r'[A-Za-z0-9_]+\Z')
 _CMAKEDEF = re.compile(r'#cmakedefine(01)? ([A-Za-z0-9_]+)(?: (\S+(?: \S+)*))?\Z')
+# cmake-configure_file(): "input lines of the form #cmakedefine VAR ..."; the directive of the format's home is '#', blanks or tabs,
+# 'cmakedefine' / 'cmakedefine01', blanks or tabs, the name (cmMakefile::ConfigureString: "#([ \t]*)cmakedefine[ \t]+([A-Za-z_0-9]*)"), and
+# Meson announces 'whitespace between `#` and `cmakedefine`' as a feature of 1.9.0.  Groups: indentation, gap, 01, name, words, trailing blanks.
+_CMAKEDEF_SPELLED = re.compile(r'([ \t]*)#([ \t]*)cmakedefine(01)?[ \t]+([A-Za-z0-9_]+)(?:[ \t]+(\S+(?: \S+)*))?([ \t]*)\Z')
+_TRIPLE_DEFINE = re.compile(r'[ \t]*#[ \t]*define[ \t]+([A-Za-z0-9_]+)(?:[ \t]+(.*?))?[ \t]*\Z', re.S)
+_TRIPLE_UNDEF = re.compile(r'[ \t]*/\*[ \t]*#?[ \t]*undef[ \t]+([A-Za-z0-9_]+)[ \t]*\*/[ \t]*\Z')
+
+
+def define_triple(body):
+    """What a rendered define line says, whatever its white space: ('define', NAME, VALUE) | ('undef', NAME, None) | ('other', body, None)."""
+    m = _TRIPLE_DEFINE.match(body)
+    if m:
+        return ('define', m.group(1), m.group(2) or '')
+    m = _TRIPLE_UNDEF.match(body)
+    if m:
+        return ('undef', m.group(1), None)
+    return ('other', body, None)
+
+
+def norm_line(line, spelled):
+    """The comparable form of an output line: the line itself where the spelling is documented, (triple, line ending) where it is not."""
+    if not spelled:
+        return line
+    body, eol = split_eol(line)
+    return (define_triple(body), eol)
+
 _SPEC_CACHE = {}
 
 
 def analyse(line, fmt):
-    """-> ('plain', segs, eol, tags) | ('define', variant, name, arg segs, eol, tags, arg text) | ('error', tags) | ('unspec', reason)"""
+    """-> ('plain', segs, eol, tags) | ('define', variant, name, arg segs, eol, tags, arg text, spelled) | ('error', tags) | ('unspec', reason)
+       spelled: the directive is not written in the documented spelling (white space): its output is compared as a triple."""
     key = (line, fmt)
     r = _SPEC_CACHE.get(key)
     if r is None:
@@ -294,7 +333,7 @@ def _analyse(line, fmt):
                 return ('error', frozenset({'error-mesondefine-tokens'}))     # pinned: '#mesondefine VAR xxx' raises
             if not _IDENT.match(toks[1]):
                 return ('unspec', 'meson:define-token')
-            return ('define', 'meson', toks[1], None, eol, frozenset({'define'} | _eoltags(eol)), None)
+            return ('define', 'meson', toks[1], None, eol, frozenset({'define'} | _eoltags(eol)), None, False)
         if 'cmakedefine' in body:
             if body.lstrip().startswith('#cmakedefine'):
                 return ('error', frozenset({'error-wrong-format'}))           # pinned: '#cmakedefine VAR' in meson raises
@@ -308,12 +347,18 @@ def _analyse(line, fmt):
         segs, tags = scan_meson(body)
         return ('plain', segs, eol, frozenset(tags | _eoltags(eol)))
     at_only = fmt == 'cmake@'
-    if body.startswith('#cmakedefine'):
+    ms = _CMAKEDEF_SPELLED.match(body) if 'cmakedefine' in body else None
+    if ms or body.startswith('#cmakedefine'):
         m = _CMAKEDEF.match(body)
-        if not m or (m.group(1) and m.group(3)):
+        stags = set()
+        if m:
+            is01, name, rest = m.group(1), m.group(2), m.group(3)
+        elif ms:
+            is01, name, rest = ms.group(3), ms.group(4), ms.group(5)
+            stags = {t for t, g in (('define-indented', ms.group(1)), ('define-hash-gap', ms.group(2))) if g} or {'define-blanks'}
+        if not (m or ms) or (is01 and rest):
             return ('unspec', 'cmake:cmakedefine-form')
         arg, atags = None, set()
-        rest = m.group(3)
         if rest:
             if 'cmakedefine' in rest or 'mesondefine' in rest:
                 return ('unspec', 'cmake:cmakedefine-form')
@@ -324,8 +369,8 @@ def _analyse(line, fmt):
             atags = {'define-arg'} | {'define-arg-' + t for t in atags if t.startswith('nested')}
             if len(arg) > 1 or arg[0][0] == 'l':
                 atags.add('define-arg-words')
-        variant = 'cmake01' if m.group(1) else 'cmake'
-        return ('define', variant, m.group(2), arg, eol, frozenset({variant + '-define'} | atags | _eoltags(eol)), rest)
+        variant = 'cmake01' if is01 else 'cmake'
+        return ('define', variant, name, arg, eol, frozenset({variant + '-define'} | atags | stags | _eoltags(eol)), rest, bool(stags))
     if 'mesondefine' in body:
         if body.lstrip().startswith('#mesondefine'):
             return ('error', frozenset({'error-wrong-format'}))               # pinned: '#mesondefine VAR' in cmake raises
@@ -758,11 +803,21 @@ def oracle2(acc, lines, specs, unspec_lines, exp_err, r, fmt, data, rep, verbose
         argmiss |= am
         acc.add('o2_lines_compared')
         acc.add('o2_define_lines')
+        spelled = spec[7]
+        if spelled:
+            # the white space of the directive is not the documented one: what the output keeps of it is unspecified, the line must
+            # still define / undefine the variable that is named, with the value of the data
+            acc.add('o2_define_lines_compared_as_triple')
+            for t in spec[5]:
+                if t in ('define-indented', 'define-hash-gap', 'define-blanks'):
+                    acc.add('o2_triple_' + t + ('+01' if spec[1] == 'cmake01' else ''))
         if verbose:
             print('o2 line %d (%s): expected one of %r + %r observed %r' % (i, fmt, bodies, eol, act))
-        if act == bodies[0] + eol:
+            if spelled:
+                print('   compared as (kind, name, value): expected %r observed %r' % (define_triple(bodies[0]), define_triple(split_eol(act)[0])))
+        if norm_line(act, spelled) == norm_line(bodies[0] + eol, spelled):
             continue
-        if any(act == x + eol for x in bodies):
+        if any(norm_line(act, spelled) == norm_line(x + eol, spelled) for x in bodies):
             acc.skip('define:undef-comment-spelling' if bodies[0].startswith('/*') else 'define:empty-string-trailing-space')
             continue
         keys = []
@@ -770,15 +825,24 @@ def oracle2(acc, lines, specs, unspec_lines, exp_err, r, fmt, data, rep, verbose
         if eol != '\n' and act.endswith('\n') and not act.endswith('\r\n'):
             keys.append(K_EOL_CRLF if eol == '\r\n' else K_EOL_EOF)
             cand = act[:-1] + eol
-        if not any(cand == x + eol for x in bodies):
+        ncand = norm_line(cand, spelled)
+        if not any(ncand == norm_line(x + eol, spelled) for x in bodies):
             v = data.get(spec[2])
+            ot = define_triple(split_eol(cand)[0])
             if spec[1] == 'meson' and isinstance(v, str) and cand == rescan_prediction(bodies[0], data) + eol:
                 keys.append(K_RESCAN)
-            elif spec[1] == 'cmake' and spec[6] and cand == (bare_token_prediction(spec[2], spec[6], fmt == 'cmake@', data) or '') + eol:
+            elif 'define-hash-gap' in spec[5] and ot[0] != 'other' and ot[1] in ('cmakedefine', 'cmakedefine01') and ot[1] != spec[2]:
+                keys = [K_KWNAME]
+            elif spec[1] == 'cmake' and spec[6] and ncand == norm_line((bare_token_prediction(spec[2], spec[6], fmt == 'cmake@', data) or '') + eol, spelled):
                 keys.append(K_BARE)
             else:
                 keys = ['C14:%s:define-line:%s' % (fmt, '+'.join(sorted(spec[5])))]
         for key in keys:
+            if spelled:
+                acc.violation(key, 'line %r (%s) with %r: expected (whatever the white space) %r, observed %r which is %r' % (
+                    lines[i], fmt, data, define_triple(bodies[0]), act, define_triple(split_eol(act)[0])),
+                    dict(rep, oracle='reference', line=i, expected=repr((define_triple(bodies[0]), eol)), observed=act))
+                continue
             acc.violation(key, 'line %r (%s) with %r: expected %r, observed %r' % (lines[i], fmt, data, bodies[0] + eol, act),
                           dict(rep, oracle='reference', line=i, expected=bodies[0] + eol, observed=act))
     if complete:
@@ -928,6 +992,21 @@ def cmake_calibration(ck):
             # anywhere in a line.  The reference follows the documentation, so lines with the keyword further right are left out.)
             if b and b not in bodies and '\r' not in b and ('cmakedefine' not in b or b.startswith('#cmakedefine')):
                 bodies.append(b)
+    # family "directive spelling": every line of the main enumeration (<= 3 fragments) the reference takes for a directive in another than
+    # the documented spelling; CMake must define / undefine the same name with the same value (its white space is not compared either)
+    seen = set(bodies)
+    for text, tup in TEMPLATES:
+        if len(tup) > 3:
+            break
+        if 'cmakedefine' not in text:
+            continue
+        for l in split_lines(text):
+            b = split_eol(l)[0]
+            if b not in seen and '\r' not in b:
+                seen.add(b)
+                spec = analyse(b + '\n', 'cmake')
+                if spec[0] == 'define' and spec[7]:
+                    bodies.append(b)
     datas = [d for d in N_DATASETS if all(isinstance(v, str) and '@' not in v and '$' not in v for v in d.values())]
     root = os.path.join(scratch_root(), 'cmakecal')
     shutil.rmtree(root, ignore_errors=True)
@@ -946,7 +1025,8 @@ def cmake_calibration(ck):
     if p.returncode != 0:
         ck.part('cmake_calibration', cmake_available=True, cmake_failed=p.stdout[-300:])
         return 0
-    n = nested = skipped = 0
+    n = nested = skipped = spelled_n = 0
+    kept_ws = set()
     bad = []
     for i, d in enumerate(datas):
         for fmt in ('cmake', 'cmake@'):
@@ -969,13 +1049,21 @@ def cmake_calibration(ck):
                     continue
                 n += 1
                 nested += any('nested' in t for t in (spec[5] if spec[0] == 'define' else spec[3]))
+                if spec[0] == 'define' and spec[7]:
+                    spelled_n += 1
+                    if g not in exp:
+                        kept_ws.add(define_triple(g)[0])
+                    if define_triple(g) not in [define_triple(x) for x in exp]:
+                        bad.append('line %r (%s) with %r: reference %r, cmake %r which is %r' % (b, fmt, d, define_triple(exp[0]), g, define_triple(g)))
+                    continue
                 if g not in exp:
                     bad.append('line %r (%s) with %r: reference %r, cmake %r' % (b, fmt, d, exp, g))
     shutil.rmtree(root, ignore_errors=True)
     NSTAT.clear()
     # a disagreement is about the reference and the installed cmake, not about Meson: it is recorded and shown, the verdict does not depend on it
     ck.part('cmake_calibration', cmake_available=True, lines=len(bodies), all_string_data_sets=len(datas), lines_compared=n,
-            lines_with_composed_names_compared=nested, unspecified_skipped=skipped, disagreements=len(bad), first_disagreements=bad[:3])
+            lines_with_composed_names_compared=nested, directive_lines_in_other_spelling_compared_as_triple=spelled_n,
+            cmake_keeps_white_space_in=sorted(kept_ws), unspecified_skipped=skipped, disagreements=len(bad), first_disagreements=bad[:3])
     if bad:
         print('note: the reference disagrees with %s on %d lines, first: %s' % (exe, len(bad), bad[0]), file=sys.stderr, flush=True)
     return n
@@ -1392,7 +1480,7 @@ def main():
     if ck.args.replay:
         return replay(ck)
     maxlen = ck.q(3, 4)
-    ck.require(len(FRAGS) == 32 and len(set(FRAGS)) == 32, 'alphabet is not 32 distinct fragments')
+    ck.require(len(FRAGS) == 36 and len(set(FRAGS)) == 36, 'alphabet is not 36 distinct fragments')
     ck.require(not any('\r' in f.replace('\r\n', '') for f in FRAGS), 'lone CR in the alphabet')
     ncal = calibrate(ck)
     ck.part('calibration', pinned_expectations_reproduced_by_reference=ncal)
@@ -1436,6 +1524,17 @@ def main():
     ck.part('templates', fragment_sequences=nseq, distinct_texts=nt, max_fragments=maxlen, formats=FORMATS,
             data_sets=len(DATASETS), shards=len(ranges), **tot)
     ck.part('finding_class_case_counts', **vcount)
+    # family "directive spelling": #cmakedefine lines whose white space is not the documented one, compared as (kind, name, value)
+    ck.part('directive_spelling_family', fragments=FRAGS[-N_SPELLING_FRAGS:],
+            also_composed_from='" " before / after the compact directives of the alphabet',
+            compared='(define | undef, NAME, VALUE) of the output line + its line ending; the white space the output keeps is unspecified',
+            **{k: v for k, v in sorted(tot.items()) if k.startswith('o2_triple_') or k == 'o2_define_lines_compared_as_triple'})
+    ck.require(tot.get('o2_define_lines_compared_as_triple', 0) > 10000, 'directive spelling family: hardly any line compared as a triple')
+    ck.require(all(tot.get('o2_triple_' + t, 0) > 1000 for t in ('define-hash-gap', 'define-hash-gap+01', 'define-indented', 'define-blanks')),
+               'directive spelling family: "# cmakedefine", "# cmakedefine01", indented or blank-padded directives not exercised')
+    ck.require(any('define-hash-gap' in c and 'define-arg-words' in c and c.startswith(f + '|') for c in classes for f in ('cmake',))
+               and any('define-hash-gap' in c and c.startswith('cmake@|') for c in classes),
+               'directive spelling family: "# cmakedefine VAR words" / the cmake@ format not exercised')
     ck.part('skipped_unspecified_by_reason', **unspec)
     ck.cov['skipped_unspecified'] = sum(unspec.values())
     for u in sorted(UNSPEC):
@@ -1472,7 +1571,7 @@ def main():
                'observed': repr(run_real(['${A_@B@}x${${B}}\n'], cd_for_data({'A': 'v', 'B': 'v', 'A_v': 7}), 'cmake')[1:])})
     ck.finish(evaluations=tot.get('evaluations', 0) + ntot.get('evaluations', 0) + nfile + nhead + ntb,
               distinct_nontrivial=len(classes) + hclasses,
-              rule='every sequence of <= %d fragments from the 32-fragment alphabet (%d sequences, %d distinct texts) x 100 data sets '
+              rule='every sequence of <= %d fragments from the 36-fragment alphabet (%d sequences, %d distinct texts) x 100 data sets '
                    '(A,B in %r) x formats %s through the real do_conf_str (+ marker-structure runs for the meson format); names family: every sequence of '
                    '<= %d fragments from a 20-fragment alphabet of references with computed names x %d data sets (A, B and at most one further key out of the '
                    'names that can be composed) x formats; do_conf_file on all '
